@@ -183,9 +183,11 @@ def check_ideal(ctx, rule):
     p, ev, A, b = parts[0]
     where = f"{f.file}:{ev.line}"
     # initial state: a store (0, :) <- 1 into the level array
-    init = [e for e in p.events if e.kind == "store_sub" and isinstance(e.data["base"], Arr2) and e.func.endswith("IdealReservoir.simulate") and isinstance(e.data["index"], TupV)]
-    ok = len(init) == 1 and isinstance(init[0].data["value"], Num) and init[0].data["value"].nf == nf.ONE
-    ctx.check(ok, rule, RES + "IdealReservoir.simulate:initial state", f.where(), "the first level is uniformly 1", signature="initial state", stores=len(init))
+    from .reservoir import initial_row
+
+    row = initial_row(p)
+    ok = row is not None and row.gen == nf.ONE and all(v == nf.ONE for _k, (_p, v) in row.over.items())
+    ctx.check(ok, rule, RES + "IdealReservoir.simulate:initial state", f.where(), "the first level is uniformly 1", signature="initial state", row=repr(row)[:160])
     arr = [a for a in nf.atoms(b.gen) if a[0] == "fn" and a[1] == "[]"]
     okb = not b.over and len(set(arr)) == 1 and nf.atom_poly(arr[0]) == b.gen
     ctx.check(
